@@ -166,7 +166,10 @@ CHECKS = {
          "correspondence). Mechanism theorems for every scan state, world and include function: C10_depth_limit (the documented 10 and "
          "its bridge to MAX_INCLUDE_DEPTH), C10_push, C10_missing_first, C10_fn_error, C10_empty_list, C10_order / C10_next_file / "
          "C10_pop, C10_missing_later (the recorded finding, exactly), C10_lineno_per_buffer, C10_directive_line, C10_paths*, "
-         "C10_provenance_step, C10_current_file, C10_actions (the translated include/EOF actions are the catalogued ones). On the "
+         "C10_provenance_step, C10_current_file, C10_actions (the translated include/EOF actions are the catalogued ones). Provenance end "
+         "to end (Properties/C10Prov.lean): C10P_provenance / C10P_read_file / C10P_include_tree — after a successful read every named "
+         "setting carries the line and file current right after its NAME token, in the included file's own numbering; "
+         "C10P_string_element_finding: an UNNAMED string element reports the token following it (outside the property's claim). On the "
          "implementation the direct oracle decides the same on generated include forests (fan-out, depth 0..12, > 32 files, empty "
          "files, no trailing newline, files ending inside a group/list/string/comment, odd names, with/without include dir, absolute "
          "paths, default and custom multi-path include functions): read_file(top) vs read_string(spliced text), recorded (file, line) "
